@@ -242,6 +242,10 @@ class RefDevice:
             pkt = codec.v3_encode_plain(self._txc(conn), b"ERROR", codec.T_ERROR)
             conn.send(pkt, lat=lat)
             conn.hostile_until = max(conn.hostile_until, conn._last_sched)
+            if d.get("close"):
+                # firmware that drops the connection after refusing a token
+                self._fire("close_after_refusal")
+                conn.close(rst=bool(d.get("rst")), lat=lat)
             return
         nonce = self.next_nonce()
         key = self.key if self.key is not None else bytes(32)
@@ -518,7 +522,7 @@ class RefDevice:
             if d.get("v2_stream") and self.version == 2:
                 self._fire("v2_stream_segmentation")
             conn.send(total, lat=lat, cuts=self._cuts(d, len(total)), gap=d.get("gap", MIN_LAT / 64),
-                      hold=bool(d.get("hold")))
+                      hold=(d.get("hold") if d.get("hold") == "next" else bool(d.get("hold"))))
             if d.get("hold"):
                 self._fire("seg_hold_coalesce")
         else:
@@ -667,9 +671,10 @@ class RefDevice:
             items = []
             for pid in ids:
                 items.append((pid, 0x00, acmodel.prop_store_value_for_read(pid, self.props)))
-            for pos, pid, val in getattr(self, "volunteered_props", ()):
+            for vp in getattr(self, "volunteered_props", ()):
                 # properties the unit reports without being asked (ids this client knows of but does not use)
-                items.insert(pos % (len(items) + 1), (pid, 0x00, bytes(val)))
+                pos, pid, val = vp[0], vp[1], vp[2]
+                items.insert(pos % (len(items) + 1), (pid, vp[3] if len(vp) > 3 else 0x00, bytes(val)))
                 self._fire("unrequested_property_in_reply")
             return [self.make_frame(acmodel.build_prop_reply(0xB1, items), FT_QUERY)]
         if cmd == 0xB0 and ftype == FT_CONTROL:
@@ -688,6 +693,11 @@ class RefDevice:
                     continue
                 res, rv = acmodel.apply_prop_set(pid, val, self.props, self.legacy_exclusive)
                 items.append((pid, res, rv))
+            for vp in getattr(self, "volunteered_props", ()):
+                # records the unit adds to its acknowledgement without being asked (optionally flagged as failed)
+                pos, pid, val = vp[0], vp[1], vp[2]
+                items.insert(pos % (len(items) + 1), (pid, vp[3] if len(vp) > 3 else 0x00, bytes(val)))
+                self._fire("unrequested_property_in_ack")
             return [self.make_frame(acmodel.build_prop_reply(0xB0, items), FT_CONTROL)]
         self.violations.append(("unknown_cmd", f"cmd 0x{cmd:02x} type {ftype}", body))
         return []
